@@ -1,7 +1,7 @@
 (* Property C03: binary-format readers are safe on arbitrary and truncated input (CCP4 map set-up, gzip buffer
    growth, memory stream). Statements only; proofs live in Map/C03Proofs.v.
    The snapshot's code is kept in the model as *_orig and REFUTED; the repaired code (fix: commits) is proved safe. *)
-From GV Require Import Map.GridIndex Map.GridOps Map.Setup Map.MapSg Map.SetupProofs Map.Stream Map.GzGrow Map.C03Proofs Map.SymmSafe.
+From GV Require Import Map.GridIndex Map.GridOps Map.Setup Map.MapSg Map.SetupProofs Map.Stream Map.GzGrow Map.C03Proofs Map.SymmSafe Map.SetupFull.
 From GV Require Mtz.Data Mtz.DataProofs.
 Local Open Scope Z_scope.
 
@@ -38,6 +38,23 @@ Theorem C03_symmetry_expansion_in_bounds : forall r, In r sg_table ->
   safe (symmetrize_using_ops func nu nv nw (scaled_ops_except_id (sg_number r) (row_gops r) nu nv nw) data).
 Proof. exact symmetrize_in_bounds. Qed.
 Print Assumptions C03_symmetry_expansion_in_bounds.
+
+(* --- THE WHOLE setup(): re-indexing followed, in Full mode, by the symmetry expansion. The repaired code tests
+   check_grid_factors on the header's sampling before symmetrize_nondefault, so the hypothesis of the theorem above is
+   established by the code itself: for EVERY header (any space-group number, any sampling), every grid the reader can
+   produce, every default value and every mode, setup() returns or throws. *)
+Theorem C03_ccp4_setup_whole_in_bounds : forall h g dflt smode,
+  Z.of_nat (length (g_data g)) = point_count (g_n g) -> safe (setup_sg h g dflt smode).
+Proof. exact ccp4_setup_full_in_bounds. Qed.
+Print Assumptions C03_ccp4_setup_whole_in_bounds.
+
+(* the code before that repair: one stored point, P 4/n (number 85), sampling 3 x 1 x 1 - the expansion indexes
+   visited[] outside its bounds; the repaired code throws *)
+Theorem C03_ccp4_setup_without_compat_refuted :
+  setup_gen setup_core no_compat sgops hdr_incompatible (mkGrid (1, 1, 1) 0 [7]) (-1) 0 = Oob /\
+  setup_sg hdr_incompatible (mkGrid (1, 1, 1) 0 [7]) (-1) 0 = Exc.
+Proof. exact setup_without_compat_refuted. Qed.
+Print Assumptions C03_ccp4_setup_without_compat_refuted.
 
 (* --- gzip growth loop. Snapshot: with a size estimate of 0 and data present the loop never ends, whatever budget *)
 Theorem C03_gz_growth_orig_refuted : exists est total, 0 <= est /\ 0 < total /\
